@@ -404,6 +404,27 @@ func main() {
 			if clip.Geometry(box, ls.Clone()) != nil {
 				wantN++
 			}
+			// the plural form: several layers (an empty one between them) clip like each layer alone
+			mk := func() *mvt.Layer {
+				return &mvt.Layer{Name: "l", Features: []*geojson.Feature{geojson.NewFeature(poly.Clone()), geojson.NewFeature(orb.Point{9, 9}), geojson.NewFeature(ls.Clone())}}
+			}
+			many := mvt.Layers{mk(), {Name: "empty"}, mk()}
+			many.Clip(box)
+			for li, l := range many {
+				wl := layer.Features
+				if li == 1 {
+					wl = nil
+				}
+				if len(l.Features) != len(wl) {
+					c.Failf("mvt-layer-clip", "Layers.Clip(%v): layer %d keeps %d features, Layer.Clip keeps %d", box, li, len(l.Features), len(wl))
+					break
+				}
+				for fi := range wl {
+					if !orb.Equal(l.Features[fi].Geometry, wl[fi].Geometry) {
+						c.Failf("mvt-layer-clip", "Layers.Clip(%v): layer %d feature %d = %v, Layer.Clip gives %v", box, li, fi, l.Features[fi].Geometry, wl[fi].Geometry)
+					}
+				}
+			}
 			if len(layer.Features) != wantN {
 				c.Failf("mvt-layer-clip", "Layer.Clip(%v) kept %d features, want %d", box, len(layer.Features), wantN)
 			} else if want != nil && !orb.Equal(layer.Features[0].Geometry, want) {
